@@ -28,9 +28,10 @@ THEOREMS = [
  'C01.converter_guard', 'C01.converter_guard_noowner', 'C01.converter_guard_chan', 'C01.chancap_first_channel',
  'C01.invoke_body_requires', 'C01.owner_plugin_body_needs_owner', 'C01.guarded_body_needs_capability',
  'C01.ignored_silent', 'C01.dispatch_requires_not_ignored', 'C01.ignore_flag_ignored', 'C01.ignores_db_ignored',
+ 'C01.channel_ignored_silent', 'C01.received_dispatch_requires', 'C01.channel_ban_ignored', 'C01.trusted_never_ignored',
  'C01.config_write_guard', 'C01.readonly_never_written',
- 'C01.defaults_have_antiowner', 'C01.defaults_drop_owner', 'C01.shipped_defaults_ok',
- 'C01.required_present', 'C01.required_rows_guarded', 'C01.plugin_names_canonical', 'C01.callgraph_ok', 'C01.defaults_mutators_ok', 'C01.gate_shape_ok',
+ 'C01.defaults_have_antiowner', 'C01.defaults_drop_owner', 'C01.defaults_antiowner_not_owner', 'C01.shipped_defaults_ok',
+ 'C01.required_present', 'C01.required_rows_guarded', 'C01.inventory_names_valid', 'C01.plugin_names_canonical', 'C01.callgraph_ok', 'C01.defaults_mutators_ok', 'C01.gate_shape_ok',
 ]
 TRUSTED = ['Lean 4.33.0 kernel; axioms ⊆ {propext, Classical.choice, Quot.sound}',
            'harness/extractors/commands.py (command inventory, call graph, gate shape → Gen/Commands.lean) and harness/extractors/ircdb_caps.py',
@@ -593,7 +594,7 @@ def explore(ctx, b, w, table, required, n_extra):
         for role in base_roles:
             reps = [('char', 'direct'), ('private', 'qualified')] if gated else [('char', 'direct')]
             if ctx.thorough and gated:
-                reps = combos[k % 2::2]       # every (form, wrapper) pair is met by half of the roles of each row
+                reps = combos[k % 3::3]       # every (form, wrapper) pair is met by a third of the roles of each row
             else:
                 reps = reps + [combos[(k * 7 + i * 13) % len(combos)] for i in range(2 if gated else 1)]
             k += 1
@@ -617,7 +618,10 @@ def explore(ctx, b, w, table, required, n_extra):
         names = [path[-1]] + ['.'.join(full[:j + 1]) for j in range(len(full))]
         which = names[(i + ctx.seed) % len(names)] if not ctx.thorough else None
         for name in ([which] if which else names):
-            for holder in (['user', 'chan', 'defaults', 'userchan'] if (ctx.thorough or plugin == 'VtGate') else [['user', 'chan', 'defaults', 'userchan'][(i + len(name)) % 4]]):
+            hs = ['user', 'chan', 'defaults', 'userchan']
+            gated_row = plugin in ('Owner', 'Admin', 'VtGate') or (plugin, path) in req_by_row
+            for holder in (hs if (plugin == 'VtGate' or (ctx.thorough and gated_row)) else
+                           ([hs[(i + len(name)) % 4], hs[(i + len(name) + 2) % 4]] if ctx.thorough else [hs[(i + len(name)) % 4]])):
                 if name == 'owner' and holder in ('user', 'defaults'):
                     continue    # UserCapabilitySet refuses -owner; the defaults already hold it
                 for form in (['char', 'private', 'other'] if holder in ('chan', 'userchan') else ['char']):
@@ -1015,6 +1019,46 @@ def explore(ctx, b, w, table, required, n_extra):
                 cases.append(c)
                 lines.append('ignored\t' + wire.enc(prefix))
                 pend.append((c, lambda o, ign: 'silent' if (o.startswith('1') or o.startswith('crash')) else 'ran'))
+
+    # ================= ignored in one channel only (IrcChannel ignores / bans / lobotomy) =================
+    if 'VtGate' in have:
+        LOB = '#lob'
+        cobj = ircdb.channels.getChannel(CHAN)
+        cobj.addIgnore('cig!*@*', 0); cobj.addIgnore('cfu!*@*', int(time.time()) + 4000); cobj.addIgnore('cex!*@*', 5)
+        cobj.addBan('cbn!*@*', 0)
+        ircdb.channels.setChannel(CHAN, cobj)
+        lobj = ircdb.channels.getChannel(LOB); lobj.lobotomized = True; ircdb.channels.setChannel(LOB, lobj)
+        def chan_fields(ch):
+            if ch is None:
+                return '0\t-\t-'
+            co = ircdb.channels.getChannel(ch)
+            enc = lambda d: ','.join('%d:%s' % (int(e), wire.enc(p)) for p, e in sorted(d.items())) or '-'
+            return '%d\t%s\t%s' % (1 if co.lobotomized else 0, enc(co.bans), enc(co.ignores))
+        CIG = [('chan-ignore', 'cig!x@h.host', CHAN, True), ('chan-ignore-elsewhere', 'cig!x@h.host', OTHERCHAN, False),
+               ('chan-ignore-private', 'cig!x@h.host', None, False), ('chan-ban', 'cbn!x@h.host', CHAN, True),
+               ('chan-ignore-future', 'cfu!x@h.host', CHAN, True), ('chan-ignore-expired', 'cex!x@h.host', CHAN, False),
+               ('lobotomized', ROLES['plain'], LOB, True), ('lobotomized-owner', ROLES['owner'], LOB, False),
+               ('chan-ignore-owner', 'own!o@owner.host', CHAN, False), ('plain-in-chan', ROLES['plain'], CHAN, False)]
+        for label, prefix, ch, want_silent in CIG:
+            if ch is None:
+                target, full = NICK, 'vtfree'
+            else:
+                target, full = ch, '@vtfree'
+            last_dump[0] = None
+            send_db()
+            fields = chan_fields(ch)
+            Obs.execute = None
+            out = deliver(b, prefix, target, full)
+            ran = ('VtGate', ('vtfree',)) in Obs.bodies
+            impl = 'silent' if (not out and not ran) else 'dispatch'
+            ok = True; msg = ''
+            if want_silent and (out or ran):
+                ok = False; msg = 'caller %s ignored in %s (%s): expected neither effect nor reply, got %r ran=%r' % (prefix, ch, label, [str(m).strip() for m in out], ran)
+            c = Case({'op': 'ignore', 'label': label, 'prefix': prefix, 'target': target, 'text': full}, impl=impl, oracle_ok=ok, oracle_msg=msg,
+                     kind='ignore', tags=['ignore', 'ign:' + label] + (['oracle:silent'] if want_silent else []))
+            cases.append(c)
+            lines.append('received\t%s\t%s\t%s' % (wire.enc(prefix), wire.enc_opt(ch), fields))
+            pend.append((c, lambda o, ign: 'silent' if (o.startswith('silent') or o.startswith('crash')) else 'dispatch'))
 
     time.time = _real_time
     Clock.offset = 0.0
